@@ -617,6 +617,7 @@ impl Server {
         let mut should_close = false;
         let mut timeout_check = false;
         let mut conn_closed = false;
+        let mut protocol_error: Option<String> = None;
         
         // First phase: read and parse with the lock
         let read_result = self.connections.with_connection(id, |conn| -> Result<()> {
@@ -667,9 +668,11 @@ impl Server {
                                         return Err(e);
                                     },
                                     _ => {
-                                        // Other parsing errors - log but don't immediately close connection
-                                        // This improves tolerance for pipelining edge cases
+                                        // A protocol violation cannot be resynchronised: the frames
+                                        // parsed so far are still served, then the client gets an
+                                        // error reply and the connection is closed (as Redis does)
                                         eprintln!("Parse warning for connection {}: {}", id, e);
+                                        protocol_error = Some(e.to_string());
                                         break;
                                     }
                                 }
@@ -848,6 +851,13 @@ impl Server {
                         }
                     }
                 }
+            }
+            
+            // Malformed input: answer with an error instead of silence, then close
+            if let Some(msg) = &protocol_error {
+                let _ = conn.send_frame(&RespFrame::error(format!("ERR {}", msg)));
+                let _ = conn.flush();
+                conn.state = ConnectionState::Closing;
             }
             
             // Handle QUIT command
